@@ -11,7 +11,7 @@ HERE = os.path.dirname(os.path.dirname(os.path.abspath(__file__)))
 CHECKS = {
  "C07": ("model_checking",
          "TLA+ spec PdbReader: TLC exhaustive over all files <= MaxLen lines; every TLC-generated file replayed into the real reader; TLC trace validation (PdbReaderTrace) of observed results",
-         "TLC enumerates every input file up to the bound (16 line kinds incl. blank/END/MODEL/TER/altloc/icode/CRLF/short lines, x drop-water) on a reader model structured like read_pdb + Biomolecule.__init__, checks AllIngested on it, and each of those files is read by the real code whose projected result must equal the model's; observed results are re-judged by TLC against the declarative Expected(file).",
+         "TLC enumerates every input file up to the bound (19 symbols incl. blank/END/MODEL/ENDMDL/TER/altloc/icode/CRLF/short lines/ATOM- and HETATM-waters, x drop-water; the record-bookkeeping sub-alphabet two lines deeper) on a reader model structured like read_pdb + Biomolecule.__init__, checks AllIngested on it, and each of those files is read by the real code whose projected result must equal the model's; observed results are re-judged by TLC against the declarative Expected(file).",
          "Assumes WellFormed(file) as stated in the evidence; rendering of abstract lines to PDB text and the projection of Biomolecule objects are harness code; bounded by MaxLen (4 quick, 5 thorough) and the alphabet.",
          "DESIGN.md 6/C07", ["PdbReader", "MC_PdbReader", "PdbReaderTrace"]),
  "C14": ("model_checking",
@@ -45,7 +45,7 @@ CHECKS = {
          "Replayed pairs are a seeded subset of the lattice TLC explores (quick) on two generated inputs and cterm_hid.pdb; PQR parsing is harness code.",
          "DESIGN.md 6/C09", ["Pipeline", "Pipeline2", "MC_Pipeline2", "Pipeline2Trace"]),
  "C11": ("model_checking",
-         "TLA+ spec History (process-lifetime state across runs): TLC exhaustive over all histories <= 3 of nine configurations; TLC-emitted histories executed in fresh interpreters under several hash seeds (incl. the console entry point); TLC trace validation (HistoryTrace): one outcome per configuration",
+         "TLA+ spec History (process-lifetime state across runs): TLC exhaustive over all histories <= 3 of fifteen configurations; TLC-emitted histories executed in fresh interpreters under several hash seeds (incl. the console entry point); TLC trace validation (HistoryTrace): one outcome per configuration",
          "Every history TLC emits is run in its own interpreter through run_pdb2pqr; the digest of the PQR bytes (or the exception class) of each run is recorded and TLC requires the outcome to be a function of the configuration across positions, histories, processes and hash seeds; configurations include same --ff with different --usernames, two user force fields, an input needing multi-atom repair, failing runs and a PROPKA run.",
          "Hash seeds and (in quick) histories of length 3 are sampled; nine configurations; verdict on output bytes only.",
          "DESIGN.md 6/C11", ["History", "HistoryTrace"]),
@@ -96,7 +96,7 @@ CHECKS = {
          "DESIGN.md 6/C04", ["Moves", "MovesTrace", "Pipeline", "PipelineTrace"]),
  "C05": ("model_checking",
          "TLA+ spec Placement (the add_hydrogens loop: tetrahedral paths by the parent's bond count, else three-point superposition on the first three available atoms of get_nearest_bonds; the repair_heavy work queue with deferral): every residue of every traced run is a case whose observed sequence of (atom, construction path, reference atoms, atoms actually handed to the superposition) TLC must reproduce, with the clauses ParentAmongRefs / ReferencePairing / PeptideNeighbourBonded / EveryHydrogenPlaced judged on the observation; every added atom of every final model is judged by PlacementTrace on bond length, bond angles, attachment and coincidence against its patched template",
-         "~110 (quick) / ~410 (thorough) traced runs: every residue type at every chain position (heavy atoms only, side-chain atoms removed singly and in groups), hydrogen-bond environments that drive each optimisation class, a backbone gap, nucleic strands, partly protonated input, titration runs and neutral termini, 1AJJ with each side chain cut after CB (rebuilt atoms clash, both debump passes act), repository structures; ~800/2900 residue cases and ~6000/18000 added atoms.",
+         "~150 (quick) / ~700 (thorough) traced runs: every residue type at every chain position (heavy atoms only, side-chain atoms removed singly and in groups), hydrogen-bond environments that drive each optimisation class, a backbone gap, nucleic strands, partly protonated input, titration runs and neutral termini, 1AJJ with each side chain cut after CB (rebuilt atoms clash, both debump passes act), repository structures; random side-chain conformations, equivalent-name exchanges, resolved acids; ~900/5000 residue cases and ~8000/55000 added atoms.",
          "Deviations are measured by harness float code (numpy), thresholds judged by TLC; the allowance (0.02 A + 2 x misfit; 6 deg + 2 x atan(2 x misfit / bond)) uses the residual of an independent SVD superposition of the template star on the input and of the recorded construction arguments; peptide neighbours are taken by distance (1.7 A), not from the model's pointers; rotated ...FLIP copies of input atoms are moves (C04), not additions.",
          "DESIGN.md 6/C05", ["Placement", "PlacementTrace"]),
 }
